@@ -297,7 +297,7 @@ HBPread(accrec_t *access_rec, int32 length, void *data)
         HGOTO_ERROR(DFE_RANGE, FAIL);
 
     /* adjust length if it falls off the end of the element */
-    if ((length == 0) || (access_rec->posn + length > info->length))
+    if ((length == 0) || (length > info->length - access_rec->posn)) /* no posn + length: it can overflow */
         length = info->length - access_rec->posn;
     else if (length < 0)
         HGOTO_ERROR(DFE_RANGE, FAIL);
